@@ -40,7 +40,7 @@ class HorseshoePrior(Prior):
         super().__init__(scale.shape, validate_args=validate_args)
         # now need to delete to be able to register buffer
         del self.scale
-        self.register_buffer("scale", scale)
+        self.register_buffer("scale", scale.clone())
         self._transform = transform
 
     def log_prob(self, X):
